@@ -891,4 +891,59 @@ func checkRecvVerdictGuard(c *Ctx) {
 		}
 	}
 	R.Floor("R20.7:recv-verdict-paths", n, 1)
+	// the converse: a segment on the probed flow with SYN, FIN and RST clear is never dismissed before its options have been
+	// scanned for SACK blocks. An early exit for "segments that cannot matter" (no options, no payload, ...) swallows exactly
+	// the plain ACKs whose lack of SACK blocks IS the 'not supported' verdict: the run then ends empty instead of with the
+	// verdict, and prefer_sack never falls back
+	scans := func(ip IPath) bool {
+		for _, ev := range ip.Events {
+			if ev.Kind != "call" {
+				continue
+			}
+			for _, a := range ev.Args {
+				if a != nil && a.Has(func(x *core.Term) bool { return x.Op == "field" && x.Name == "Options" }) {
+					return true
+				}
+			}
+		}
+		return false
+	}
+	ips := InlinedPaths(c.P, f, inlineOpts{pkg: core.FuncPkg(f), stop: hasLoop, maxDepth: 4})
+	anyScan := false
+	for _, ip := range ips {
+		if scans(ip) {
+			anyScan = true
+		}
+	}
+	if !anyScan {
+		R.Info("R20.7", fn+"#verdict-complete", f.Pos(), fn, "no call receives the TCP options: the SACK scan is not a call here, completeness of the verdict is not decided")
+		return
+	}
+	m := 0
+	for _, ip := range ips {
+		eqs := pathEqs(ip.Atoms)
+		if findEq(eqs, isOuterSrcAddr, roles.TargetAddr) == nil || findEq(eqs, isTCPSrcPort, roles.TargetPort) == nil || findEq(eqs, isTCPDstPort, roles.LocalPort) == nil {
+			continue
+		}
+		as := flagAssignments(ip.Atoms)
+		clear := len(as) > 0
+		for _, a := range as {
+			sy, ok1 := a["SYN"]
+			fi, ok2 := a["FIN"]
+			rs, ok3 := a["RST"]
+			if !ok1 || !ok2 || !ok3 || sy || fi || rs {
+				clear = false
+			}
+		}
+		if !clear {
+			continue
+		}
+		m++
+		if scans(ip) {
+			R.OK("R20.7", fn+"#verdict-complete", ip.Ret.Pos(), fn, "a plain segment on the probed flow reaches the SACK scan")
+		} else {
+			R.FailPath("R20.7", fn+"#verdict-complete", ip.Ret.Pos(), fn, "a segment from the target on the probed flow with SYN, FIN and RST clear is dismissed before its options are scanned for SACK blocks: the plain ACKs whose missing SACK blocks are the 'not supported' verdict are skipped as noise, so a target without SACK yields an empty run instead of the verdict and prefer_sack never falls back", ip.Desc)
+		}
+	}
+	R.Floor("R20.7:plain-segment-paths", m, 1)
 }
